@@ -1,9 +1,10 @@
 (* EGraph/SoundRebuild.v — C01, stages 2 and 4 of the plan of SoundFacts.v: rebuild, insertion
    and union keep the soundness invariant; the end-to-end theorem `equality_sound`, conditional on
-   the union core only (`H_ui`).  See the summary at the end of the file. *)
+   four semantic facts about handle_pending only (`spec_HSh_red`, `spec_HC_sim`, `spec_HD_sim`,
+   `spec_HS_readd` of SoundPending.v).  See the summary at the end of the file. *)
 From SE Require Import Slots.SlotMapFacts Group.GroupSound Lang.LangFacts Lang.ShapeFacts Lang.RenameFacts
   EGraph.Model EGraph.ModelFacts EGraph.ModelMachine EGraph.UnionFindFacts EGraph.InvariantFacts
-  EGraph.UnionInvariantFacts EGraph.AddCoversFacts EGraph.MonotoneFacts EGraph.SoundFacts EGraph.SoundSyn EGraph.SoundNode EGraph.NodePass EGraph.SoundBase EGraph.SoundAddNew EGraph.SoundAddExpr EGraph.SoundPending.
+  EGraph.UnionInvariantFacts EGraph.AddCoversFacts EGraph.MonotoneFacts EGraph.SoundFacts EGraph.SoundUnion EGraph.SoundSyn EGraph.SoundNode EGraph.SoundStruct EGraph.NodePass EGraph.SoundBase EGraph.SoundAddNew EGraph.SoundVals EGraph.SoundAddExpr EGraph.SoundPending.
 From SE Require Import Sem.Deriv Sem.DerivFacts Sem.AlgebraFacts Sem.EgMachine Explain.CheckerFacts.
 Require Import ZArith Lia ZifyBool ZifyN ZifyNat.
 Ltac Zify.zify_post_hook ::= Z.div_mod_to_equations.
@@ -29,61 +30,98 @@ Proof.
   apply Pn. exists k. apply in_get; assumption.
 Qed.
 
+(* ====================================================================== *)
+(* the interface of shrink_slots, DISCHARGED (SoundUnion.Sound_shrink_slots_closed + redund_of_sim) *)
+(* ====================================================================== *)
+
+Lemma restrict_to_get : forall cap a y v, wf (am a) -> get (am (restrict_to cap a)) y = Some v ->
+  get (am a) y = Some v /\ In v cap.
+Proof.
+  intros cap a y v W G. unfold restrict_to in G. cbn [am] in G. apply get_in in G. apply filter_In in G.
+  destruct G as [Hin Hm]. cbn [snd] in Hm. split; [apply in_get; assumption|apply sset_mem_in; exact Hm].
+Qed.
+
+(* from ~~ from restricted to cap  ==>  the slots of from mapped outside cap are redundant *)
+Theorem H_shrink_closed : spec_H_shrink.
+Proof.
+  intros E fuel from cap s x s' I3 W M S L SIM H.
+  pose proof (proj1 (proj1 I3)) as I. destruct (canon_wf_inj _ _ (proj2 L)) as [Wf If].
+  destruct (canon_skeys s from I (proj2 L)) as [_ Kf].
+  apply (Sound_shrink_slots_closed E fuel from cap s x s' I3 M S L); [|exact H].
+  apply (redund_of_sim E s from (restrict_to cap from) cap SIM If).
+  - intros k1 k2 v G1 G2. destruct (restrict_to_get _ _ _ _ Wf G1) as [G1' _].
+    destruct (restrict_to_get _ _ _ _ Wf G2) as [G2' _]. eapply If; eauto.
+  - exact Kf.
+  - intros x0 y v Gx Gy. exact (proj2 (restrict_to_get _ _ _ _ Wf Gy)).
+Qed.
+
+(* the facts about two further (abstract) structural run invariants SC, KC that Section Stages needs:
+   SC is monotone along ext steps, KC depends on the classes only and is kept by handle_pending and by
+   the union core, both hold in the empty e-graph and in the state right before the rebuild of an
+   insertion.  Instances: SC = KC = fun _ => True (`xinv_trivial` below; used for the final theorems),
+   or SC = "children of syntactic nodes are covered", KC = "children of stored nodes are covered" *)
+Record xinv_ok (SC KC : egraph -> Prop) : Prop := {
+  xi_SC_ext : forall s s', ext s s' -> SC s -> SC s';
+  xi_KC_cuR : forall s s', cuR s s' -> KC s -> KC s';
+  xi_SC_empty : SC empty_egraph;
+  xi_KC_empty : KC empty_egraph;
+  xi_KC_hp : forall sh ty s x s', inv3 s -> syn_wf s -> mod4_ok s -> SC s -> KC s ->
+     handle_pending sh ty s = Ok (x, s') -> KC s';
+  xi_KC_uint : forall l r s b s', inv3 s -> syn_wf s -> mod4_ok s -> covers s l -> covers s r -> SC s -> KC s ->
+     uint l r s = Ok (b, s') -> KC s';
+  xi_new : forall t p s a s' s5, inv3 s -> syn_wf s -> mod4_ok s -> stored2 s -> kids_exist s -> SC s -> KC s ->
+     ectr s mod 4 = 1 -> wshape p = Ok t -> lookup_internal s t = Ok None ->
+     Forall (covers s) (app_occ p) -> Forall (fun x => wf (am x)) (app_occ p) ->
+     (forall x, In x (pub_occ p) -> x mod 4 <> 1 \/ x < ectr s) ->
+     add_internal t s = Ok (a, s') -> new_walk t s s5 -> SC s5 /\ KC s5 }.
+
+Lemma xinv_trivial : xinv_ok (fun _ => True) (fun _ => True).
+Proof. constructor; auto. Qed.
+
 Section Stages.
-  (* ASSUMED: the union core keeps the invariant when it is called on related invocations
-     (stage 3 of the plan, proved elsewhere) *)
-  Hypothesis H_ui : forall E fuel, ui_spec_sound E (union_internal fuel).
+  Variable SC : egraph -> Prop.
+  Variable KC : egraph -> Prop.
+  Hypothesis XI : xinv_ok SC KC.
+
+  (* ASSUMED (semantic, about handle_pending; statements: `spec_*_x` of SoundPending.v, i.e. the
+     `spec_*` statements with the structural invariants mod4_ok, SC (and KC at the start of
+     handle_pending) of the states as extra premises): the arguments of the shrink / the two unions
+     issued by handle_pending are related, and the re-added node denotes its new class *)
+  Hypothesis HSh_red : spec_HSh_red_x SC.
+  Hypothesis HC_sim : spec_HC_sim_x SC.
+  Hypothesis HD_sim : spec_HD_sim_x SC.
+  Hypothesis HS_readd : spec_HS_readd_x SC KC.
 
   (* ------------------------------------------------------------------ *)
   (* (a) rebuild *)
 
-  (* ASSUMED: the facts assumed by SoundPending.v (statements: `spec_*` there): the interface of
-     shrink_slots (part of the union core), that the arguments of the three unions issued by
-     handle_pending are related, and that the re-added node denotes its new class *)
-  Hypothesis H_shrink : spec_H_shrink.
-  Hypothesis HSh_red : spec_HSh_red.
-  Hypothesis HC_sim : spec_HC_sim.
-  Hypothesis HD_sim : spec_HD_sim.
-  Hypothesis HS_readd : spec_HS_readd.
-
-  Lemma Sound_handle_pending : forall E sh ty s x s', inv3 s -> syn_wf s -> Sound E s ->
+  Lemma Sound_handle_pending : forall E sh ty s x s', inv3 s -> syn_wf s -> mod4_ok s -> SC s -> KC s -> Sound E s ->
     handle_pending sh ty s = Ok (x, s') -> Sound E s'.
-  Proof. exact (SoundPending.Sound_handle_pending H_ui H_shrink HSh_red HC_sim HD_sim HS_readd). Qed.
+  Proof. exact (SoundPending.Sound_handle_pending SC KC (xi_SC_ext _ _ XI) ui_spec_sound_closed H_shrink_closed HSh_red HC_sim HD_sim HS_readd). Qed.
 
-  Theorem Sound_rebuild : forall E fuel s x s', inv3 s -> syn_wf s -> Sound E s ->
-    rebuild fuel s = Ok (x, s') -> Sound E s'.
+  Theorem Sound_rebuild : forall E fuel s x s', inv3 s -> syn_wf s -> mod4_ok s -> SC s /\ KC s -> Sound E s ->
+    rebuild fuel s = Ok (x, s') -> Sound E s' /\ (SC s' /\ KC s').
   Proof.
-    intros E. induction fuel as [|f IH]; intros s x s' I W S H; [discriminate|]. rewrite rebuild_S in H.
+    intros E. induction fuel as [|f IH]; intros s x s' I W M [Sc Kc] S H; [discriminate|]. rewrite rebuild_S in H.
     apply mbind_inv in H. destruct H as (p & s0 & Hp & H). inversion Hp; subst p s0; clear Hp.
-    destruct (pending s) as [|[sh ty] rest]; [inversion H; subst; exact S|].
+    destruct (pending s) as [|[sh ty] rest]; [inversion H; subst; auto|].
     apply mbind_inv in H. destruct H as (u & s1 & H1 & H).
     destruct (s_modify_pend' (fun _ => rest) _ _ _ H1) as [A1 N1].
     destruct (semn_step3 _ _ A1 N1 I) as [I1 E1].
     assert (S1 : Sound E s1) by (inversion H1; apply Sound_set_pending; exact S).
+    assert (M1 : mod4_ok s1) by (inversion H1; apply m4_set_pending; exact M).
     pose proof (syn_wf_ext _ _ E1 W) as W1.
     apply mbind_inv in H. destruct H as (u2 & s2 & H2 & H).
     destruct (inv3_handle_pending pre_shape_keeps_proved _ _ _ _ _ H2 I1) as [I2 E2].
-    pose proof (Sound_handle_pending E _ _ _ _ _ I1 W1 S1 H2) as S2.
-    exact (IH _ _ _ I2 (syn_wf_ext _ _ E2 W1) S2 H).
+    pose proof (xi_SC_ext _ _ XI _ _ E1 Sc) as Sc1.
+    assert (Kc1 : KC s1) by (inversion H1; apply (xi_KC_cuR _ _ XI s); [split; reflexivity|exact Kc]).
+    pose proof (Sound_handle_pending E _ _ _ _ _ I1 W1 M1 Sc1 Kc1 S1 H2) as S2.
+    pose proof (xi_KC_hp _ _ XI _ _ _ _ _ I1 W1 M1 Sc1 Kc1 H2) as Kc2.
+    exact (IH _ _ _ I2 (syn_wf_ext _ _ E2 W1) (m4_handle_pending _ _ _ _ _ M1 H2) (conj (xi_SC_ext _ _ XI _ _ E2 Sc1) Kc2) S2 H).
   Qed.
 
   (* ------------------------------------------------------------------ *)
   (* (b) insertion *)
-
-  (* ASSUMED, structural (no semantics): the run invariant `stored_ok` of SoundNode.v is kept *)
-  Hypothesis HSO_add_internal : forall t p s a s', inv3 s -> stored_ok s -> ectr s mod 4 = 1 -> wshape p = Ok t ->
-    add_internal t s = Ok (a, s') -> stored_ok s'.
-  Hypothesis HSO_eg_union : forall l r s b s', inv3 s -> covers s l -> covers s r -> stored_ok s -> ectr s mod 4 = 1 ->
-    eg_union l r s = Ok (b, s') -> stored_ok s'.
-  (* ASSUMED, structural: the values of the map returned by add_internal *)
-  Hypothesis HN_vals : forall t p s a s', inv3 s -> ectr s mod 4 = 1 -> wshape p = Ok t -> lookup_internal s t = Ok None ->
-    add_internal t s = Ok (a, s') -> forall v, In v (values_vec (am a)) -> In v (pub_occ p) \/ v mod 4 = 1.
-  (* ASSUMED: the lookup-miss branch of add_internal (a new class): the returned invocation denotes
-     the node.  (SoundAddNew.nsound_add_internal_new proves this from Sound_rebuild under two more
-     premises: `Forall (fun x => wf (am x)) (app_occ p)` and
-     `forall x, In x (pub_occ p) -> x mod 4 <> 1 \/ x < ectr s`.) *)
-  Hypothesis HN_nsound : forall E t p s a s', inv3 s -> syn_wf s -> Sound E s -> ectr s mod 4 = 1 -> wshape p = Ok t ->
-    lookup_internal s t = Ok None -> Forall (covers s) (app_occ p) -> add_internal t s = Ok (a, s') -> nsound E s' a p.
 
   Lemma add_internal_hit : forall t s x a s', lookup_internal s t = Ok (Some x) -> add_internal t s = Ok (a, s') -> a = x /\ s' = s.
   Proof.
@@ -94,27 +132,58 @@ Section Stages.
   Lemma lookup_total : forall t s a s', add_internal t s = Ok (a, s') -> exists lk, lookup_internal s t = Ok lk.
   Proof. intros t s a s' H. unfold add_internal in H. apply bind_reads_inv in H. destruct H as (lk & Hlk & _). eauto. Qed.
 
+  (* the values of the map returned by add_internal: public slots of the node, or fresh slots drawn
+     from the counter *)
   Lemma add_internal_vals : forall t p s a s', inv3 s -> ectr s mod 4 = 1 -> wshape p = Ok t ->
-    add_internal t s = Ok (a, s') -> forall v, In v (values_vec (am a)) -> In v (pub_occ p) \/ v mod 4 = 1.
+    add_internal t s = Ok (a, s') -> forall v, In v (values_vec (am a)) -> In v (pub_occ p) \/ (v mod 4 = 1 /\ v < ectr s').
   Proof.
     intros t p s a s' I Cm Hw H v Hv. destruct (lookup_total _ _ _ _ H) as ([x|] & L).
     - destruct (add_internal_hit _ _ _ _ _ L H) as [-> ->]. left. destruct t as [sh nb]. eapply lookup_hit_vals; eauto.
-    - eapply HN_vals; eauto.
+    - exact (add_internal_new_vals t p s a s' I Cm Hw L H v Hv).
   Qed.
 
-  (* the structural run invariants that are not part of inv3 *)
-  Definition RI (s : egraph) : Prop := stored_ok s /\ kids_exist s.
+  (* the structural run invariants that are not part of inv3: the stored keys are weak shapes with
+     total bijections (SoundStruct.v), the children of stored nodes exist (NodePass.v), slot names by
+     residue (SoundUnion.v), and the two abstract invariants.  stored2 /\ mod4_ok gives stored_ok of
+     SoundNode.v *)
+  Definition RI0 (s : egraph) : Prop := stored2 s /\ kids_exist s /\ mod4_ok s.
+  Definition RI (s : egraph) : Prop := RI0 s /\ (SC s /\ KC s).
+
+  Lemma RI0_add_internal : forall t s a s', RI0 s -> add_internal t s = Ok (a, s') -> RI0 s'.
+  Proof.
+    intros t s a s' (SO & KE & M) H. split; [exact (pS_add_internal t s a s' H SO)|].
+    split; [exact (kids_exist_add_internal t s a s' KE H)|exact (p4_add_internal t s a s' H M)].
+  Qed.
+
+  Lemma RI0_eg_union : forall l r s b s', RI0 s -> eg_union l r s = Ok (b, s') -> RI0 s'.
+  Proof.
+    intros l r s b s' (SO & KE & M) H. split; [exact (pS_eg_union l r s b s' H SO)|].
+    split; [exact (kids_exist_eg_union l r s b s' KE H)|exact (p4_eg_union l r s b s' H M)].
+  Qed.
+
+  Lemma RI_empty : RI empty_egraph.
+  Proof.
+    split; [split; [exact stored2_empty|split; [exact kids_exist_empty|exact mod4_ok_empty]]|].
+    split; [exact (xi_SC_empty _ _ XI)|exact (xi_KC_empty _ _ XI)].
+  Qed.
 
   Theorem Sound_add_internal : forall E t p s a s', inv3 s -> syn_wf s -> Sound E s -> RI s -> ectr s mod 4 = 1 ->
-    wshape p = Ok t -> Forall (covers s) (app_occ p) -> add_internal t s = Ok (a, s') ->
+    wshape p = Ok t -> Forall (covers s) (app_occ p) -> Forall (fun x => wf (am x)) (app_occ p) ->
+    (forall x, In x (pub_occ p) -> x mod 4 <> 1 \/ x < ectr s) ->
+    add_internal t s = Ok (a, s') ->
     Sound E s' /\ syn_wf s' /\ nsound E s' a p /\ RI s'.
   Proof.
-    intros E t p s a s' I W S [SO KE] Cm Hw Cv H. destruct (lookup_total _ _ _ _ H) as ([x|] & L).
-    - destruct (add_internal_hit _ _ _ _ _ L H) as [-> ->]. split; [exact S|]. split; [exact W|]. split; [|split; assumption].
-      destruct t as [sh nb]. eapply nsound_lookup_hit; eauto.
-    - split; [exact (Sound_add_internal_new Sound_rebuild E t p s a s' I W S KE Cm Hw L H)|].
-      split; [exact (syn_wf_add_internal t p s a s' I W Hw H)|]. split; [eapply HN_nsound; eauto|].
-      split; [eapply HSO_add_internal; eauto|eapply kids_exist_add_internal; eauto].
+    intros E t p s a s' I W S HR Cm Hw Cv Wfp Bp H. pose proof HR as ((SO & KE & M) & (Sc & Kc)).
+    destruct (lookup_total _ _ _ _ H) as ([x|] & L).
+    - destruct (add_internal_hit _ _ _ _ _ L H) as [-> ->]. split; [exact S|]. split; [exact W|]. split; [|exact HR].
+      destruct t as [sh nb]. exact (nsound_lookup_hit E s p sh nb x I (stored_ok_of s SO M) S Hw L).
+    - assert (HXP : forall s5, new_walk t s s5 -> SC s5 /\ KC s5).
+      { intros s5 NW. exact (xi_new _ _ XI t p s a s' s5 I W M SO KE Sc Kc Cm Hw L Cv Wfp Bp H NW). }
+      destruct (Sound_add_internal_new (fun z => SC z /\ KC z) Sound_rebuild E t p s a s' I W M S KE Cm HXP Hw L H) as [S' X'].
+      split; [exact S'|].
+      split; [exact (syn_wf_add_internal t p s a s' I W Hw H)|].
+      split; [exact (nsound_add_internal_new (fun z => SC z /\ KC z) Sound_rebuild E t p s a s' I W M S KE Cm HXP Hw L H Cv Wfp Bp)|].
+      split; [exact (RI0_add_internal t s a s' (proj1 HR) H)|exact X'].
   Qed.
 
   Theorem Sound_add_expr_all : forall E t s a s', inv3 s -> syn_wf s -> Sound E s -> RI s -> ectr s mod 4 = 1 ->
@@ -125,30 +194,33 @@ Section Stages.
   (* ------------------------------------------------------------------ *)
   (* (c) union *)
 
-  Theorem Sound_eg_union : forall E s l r tl tr b s', inv3 s -> syn_wf s -> Sound E s ->
+  Theorem Sound_eg_union : forall E s l r tl tr b s', inv3 s -> syn_wf s -> mod4_ok s -> SC s /\ KC s -> Sound E s ->
     covers s l -> covers s r -> handle_ok E s l tl -> handle_ok E s r tr ->
-    eg_union l r s = Ok (b, s') -> Sound (E ++ [(tl, tr)]) s'.
+    eg_union l r s = Ok (b, s') -> Sound (E ++ [(tl, tr)]) s' /\ (SC s' /\ KC s').
   Proof.
-    intros E s l r tl tr b s' I W S Cl Cr Ol Or H.
+    intros E s l r tl tr b s' I W M [Sc Kc] S Cl Cr Ol Or H.
     pose proof (handle_sim E s l r tl tr W Cl Cr Ol Or) as SIM.
-    assert (M : forall e, In e E -> In e (E ++ [(tl, tr)])) by (intros e He; apply in_or_app; left; exact He).
-    pose proof (Sound_mono _ _ _ M S) as S'.
+    assert (ME : forall e, In e E -> In e (E ++ [(tl, tr)])) by (intros e He; apply in_or_app; left; exact He).
+    pose proof (Sound_mono _ _ _ ME S) as S'.
     unfold eg_union in H.
     apply mbind_inv in H. destruct H as (l1 & s1 & H1 & H).
     destruct (semn_step3 _ _ (s_synify_app_id _ _ _ _ H1) (n_synify_app_id _ _ _ _ H1) I) as [I1 E1].
-    pose proof (cu_synify_app_id _ _ _ _ H1) as U1.
+    pose proof (cu_synify_app_id _ _ _ _ H1) as U1. pose proof (m4_synify_app_id _ _ _ _ M H1) as M1.
     apply mbind_inv in H. destruct H as (r1 & s2 & H2 & H).
     destruct (semn_step3 _ _ (s_synify_app_id _ _ _ _ H2) (n_synify_app_id _ _ _ _ H2) I1) as [I2 E2].
-    pose proof (cu_synify_app_id _ _ _ _ H2) as U2.
+    pose proof (cu_synify_app_id _ _ _ _ H2) as U2. pose proof (m4_synify_app_id _ _ _ _ M1 H2) as M2.
     pose proof (cuR_trans _ _ _ U1 U2) as U02. pose proof (ext_trans _ _ _ E1 E2) as E02.
     apply mbind_inv in H. destruct H as (out & s3 & H3 & H).
     assert (SIM2 : sim (E ++ [(tl, tr)]) s2 l r) by (apply (sim_classes _ s s2 _ _ (proj1 U02)); exact SIM).
-    pose proof (H_ui _ ui_fuel l r s2 out s3 I2 (Sound_cuR _ _ _ U02 S')
+    pose proof (ui_spec_sound_closed _ ui_fuel l r s2 out s3 I2 M2 (Sound_cuR _ _ _ U02 S')
                   (covers_ext _ _ _ E02 Cl) (covers_ext _ _ _ E02 Cr) SIM2 H3) as S3.
     destruct (inv3_uint _ _ _ _ _ I2 (covers_ext _ _ _ E02 Cl) (covers_ext _ _ _ E02 Cr) H3) as [I3 E3].
     apply mbind_inv in H. destruct H as (u & s4 & H4 & H). inversion H; subst b s4; clear H.
-    refine (Sound_rebuild _ _ _ _ _ I3 _ S3 H4).
-    apply (syn_wf_ext s); [|exact W]. eapply ext_trans; eauto.
+    assert (W2 : syn_wf s2) by (apply (syn_wf_ext s); [exact E02|exact W]).
+    pose proof (xi_SC_ext _ _ XI _ _ E02 Sc) as Sc2. pose proof (xi_KC_cuR _ _ XI _ _ U02 Kc) as Kc2.
+    pose proof (xi_KC_uint _ _ XI l r s2 out s3 I2 W2 M2 (covers_ext _ _ _ E02 Cl) (covers_ext _ _ _ E02 Cr) Sc2 Kc2 H3) as Kc3.
+    refine (Sound_rebuild _ _ _ _ _ I3 _ (m4_uint _ _ _ _ _ M2 H3) (conj (xi_SC_ext _ _ XI _ _ E3 Sc2) Kc3) S3 H4).
+    apply (syn_wf_ext s2); [exact E3|exact W2].
   Qed.
 
   (* ------------------------------------------------------------------ *)
@@ -157,36 +229,51 @@ Section Stages.
   Definition Good2 (E : equations) (s : egraph) (hs : list appid) (hts : list cterm) : Prop :=
     Good E s hs hts /\ syn_wf s /\ RI s /\ ectr s mod 4 = 1.
 
+  Lemma Good2_empty : forall E, Good2 E empty_egraph [] [].
+  Proof.
+    intros E. split; [|split; [exact syn_wf_empty|split; [exact RI_empty|reflexivity]]].
+    split; [exact inv3_empty|]. split; [apply Sound_empty|]. split; constructor.
+  Qed.
+
+  (* one insertion *)
+  Lemma Good2_add : forall E s hs hts tm a s1, Good2 E s hs hts -> rt_ok tm -> rt_wf tm ->
+    add_expr tm s = Ok (a, s1) -> Good2 E s1 (hs ++ [a]) (hts ++ [canon0 tm]).
+  Proof.
+    intros E s hs hts tm a s1 ((I & S & Cv & F) & W & SO & Cm) TOk TWf Ea.
+    destruct (add_expr_covers tm s a s1 I Ea) as (I1 & X & Ca).
+    destruct (Sound_add_expr_all E tm s a s1 I W S SO Cm TOk TWf Ea) as (S1 & O1 & W1 & SO1).
+    pose proof (proj2 (add_expr_ctr_grows tm s a s1 Ea) Cm) as Cm1.
+    split; [|split; [exact W1|split; [exact SO1|exact Cm1]]]. split; [exact I1|]. split; [exact S1|]. split.
+    - apply Forall_app. split; [|constructor; [exact Ca|constructor]].
+      apply Forall_forall. intros x Hx. eapply covers_ext0; [exact X|]. apply (proj1 (Forall_forall _ _) Cv). exact Hx.
+    - apply Forall2_app; [|constructor; [exact O1|constructor]].
+      clear -F Cv X. induction F as [|x y l l' Hxy F IHF]; [constructor|]. inversion Cv; subst.
+      constructor; [eapply handle_ok_ext0; eauto|apply IHF; assumption].
+  Qed.
+
   Lemma Good2_run_ops : forall terms, Forall rt_ok terms -> Forall rt_wf terms ->
     forall ops hs s hts E hs' s', Good2 E s hs hts -> run_ops terms ops hs s = Ok (hs', s') ->
     Good2 (snd (ghost terms ops hts E)) s' hs' (fst (ghost terms ops hts E)).
   Proof.
     intros terms TO TW. induction ops as [|o ops IH]; intros hs s hts E hs' s' G H; cbn [run_ops ghost] in *.
     - inversion H; subst. exact G.
-    - destruct G as ((I & S & Cv & F) & W & SO & Cm). destruct o as [k|i j just].
+    - destruct o as [k|i j just].
       + destruct (nth_opt terms k) as [tm|] eqn:Ek; [|discriminate]. unfold mbind in H.
         destruct (add_expr tm s) as [[a s1]|] eqn:Ea; [|discriminate].
-        destruct (add_expr_covers tm s a s1 I Ea) as (I1 & X & Ca).
         assert (TOk : rt_ok tm). { apply (proj1 (Forall_forall _ _) TO). eapply nth_opt_In; eauto. }
         assert (TWf : rt_wf tm). { apply (proj1 (Forall_forall _ _) TW). eapply nth_opt_In; eauto. }
-        destruct (Sound_add_expr_all E tm s a s1 I W S SO Cm TOk TWf Ea) as (S1 & O1 & W1 & SO1).
-        pose proof (proj2 (add_expr_ctr_grows tm s a s1 Ea) Cm) as Cm1.
-        refine (IH _ _ _ _ _ _ _ H). split; [|split; [exact W1|split; [exact SO1|exact Cm1]]]. split; [exact I1|]. split; [exact S1|]. split.
-        * apply Forall_app. split; [|constructor; [exact Ca|constructor]].
-          apply Forall_forall. intros x Hx. eapply covers_ext0; [exact X|]. apply (proj1 (Forall_forall _ _) Cv). exact Hx.
-        * apply Forall2_app; [|constructor; [exact O1|constructor]].
-          clear -F Cv X. induction F as [|x y l l' Hxy F IHF]; [constructor|]. inversion Cv; subst.
-          constructor; [eapply handle_ok_ext0; eauto|apply IHF; assumption].
-      + destruct (nth_opt hs i) as [a|] eqn:Ha; [|discriminate]. destruct (nth_opt hs j) as [b|] eqn:Hb; [|discriminate].
+        exact (IH _ _ _ _ _ _ (Good2_add E s hs hts tm a s1 G TOk TWf Ea) H).
+      + destruct G as ((I & S & Cv & F) & W & SO & Cm).
+        destruct (nth_opt hs i) as [a|] eqn:Ha; [|discriminate]. destruct (nth_opt hs j) as [b|] eqn:Hb; [|discriminate].
         unfold mbind in H. destruct (eg_union a b s) as [[u s1]|] eqn:Eu; [|discriminate].
         destruct (Forall2_nth_opt _ _ _ _ _ F Ha) as (ta & -> & Oa).
         destruct (Forall2_nth_opt _ _ _ _ _ F Hb) as (tb & -> & Ob).
         pose proof (proj1 (Forall_forall _ _) Cv) as Cv'.
         pose proof (Cv' _ (nth_opt_In _ _ _ _ Ha)) as Ca. pose proof (Cv' _ (nth_opt_In _ _ _ _ Hb)) as Cb.
         destruct (eg_union_inv3 a b s u s1 I Ca Cb Eu) as (I1 & X).
-        pose proof (Sound_eg_union E s a b ta tb u s1 I W S Ca Cb Oa Ob Eu) as S1.
+        destruct (Sound_eg_union E s a b ta tb u s1 I W (proj2 (proj2 (proj1 SO))) (proj2 SO) S Ca Cb Oa Ob Eu) as [S1 X1].
         pose proof (proj2 (eg_union_ctr_grows a b s u s1 Eu) Cm) as Cm1.
-        assert (SO1 : RI s1) by (split; [exact (HSO_eg_union a b s u s1 I Ca Cb (proj1 SO) Cm Eu)|exact (kids_exist_eg_union a b s u s1 (proj2 SO) Eu)]).
+        pose proof (conj (RI0_eg_union a b s u s1 (proj1 SO) Eu) X1) as SO1.
         refine (IH _ _ _ _ _ _ _ H). split; [|split; [exact (syn_wf_ext _ _ X W)|split; [exact SO1|exact Cm1]]]. split; [exact I1|]. split; [exact S1|]. split.
         * apply Forall_forall. intros x Hx. eapply covers_ext; [exact X|]. apply Cv'. exact Hx.
         * clear -F Cv X. induction F as [|x y l l' Hxy F IHF]; [constructor|]. inversion Cv; subst.
@@ -195,66 +282,139 @@ Section Stages.
           eapply handle_ok_mono; [|exact Hxy]. intros e He. apply in_or_app. left. exact He.
   Qed.
 
-  (* the final statement, conditional on H_ui (and on whatever is still a Hypothesis above) *)
-  Theorem equality_sound : forall terms ops hs s i j a b ti tj, Forall rt_ok terms -> Forall rt_wf terms ->
+  (* insertion-only histories: the set of equations stays as it is *)
+  Lemma Good2_run_adds : forall terms, Forall rt_ok terms -> Forall rt_wf terms ->
+    forall ops hs s hts E hs' s', adds_only ops -> Good2 E s hs hts -> run_ops terms ops hs s = Ok (hs', s') ->
+    Good2 E s' hs' (fst (ghost terms ops hts E)) /\ snd (ghost terms ops hts E) = E.
+  Proof.
+    intros terms TO TW. induction ops as [|o ops IH]; intros hs s hts E hs' s' AO G H; cbn [run_ops ghost] in *.
+    - inversion H; subst. split; [exact G|reflexivity].
+    - inversion AO as [|o' ops' Ho AO']; subst. destruct o as [k|i j just]; [|contradiction].
+      destruct (nth_opt terms k) as [tm|] eqn:Ek; [|discriminate]. unfold mbind in H.
+      destruct (add_expr tm s) as [[a s1]|] eqn:Ea; [|discriminate].
+      assert (TOk : rt_ok tm). { apply (proj1 (Forall_forall _ _) TO). eapply nth_opt_In; eauto. }
+      assert (TWf : rt_wf tm). { apply (proj1 (Forall_forall _ _) TW). eapply nth_opt_In; eauto. }
+      exact (IH _ _ _ _ _ _ AO' (Good2_add E s hs hts tm a s1 G TOk TWf Ea) H).
+  Qed.
+
+  (* the final statement, conditional on the four hypotheses of this section *)
+  Theorem equality_sound_x : forall terms ops hs s i j a b ti tj, Forall rt_ok terms -> Forall rt_wf terms ->
     run_ops terms ops [] empty_egraph = Ok (hs, s) ->
     nth_opt hs i = Some a -> nth_opt hs j = Some b ->
     nth_opt (handle_cterms terms ops) i = Some ti -> nth_opt (handle_cterms terms ops) j = Some tj ->
     eg_eq s a b = Ok true -> Deriv (asserted terms ops) 0 ti tj.
   Proof.
     intros terms ops hs s i j a b ti tj TO TW R Ha Hb Hti Htj H.
-    assert (G0 : Good2 [] empty_egraph [] []).
-    { split; [|split; [exact syn_wf_empty|split; [split; [exact stored_ok_empty|exact kids_exist_empty]|reflexivity]]]. split; [exact inv3_empty|]. split; [apply Sound_empty|]. split; constructor. }
-    destruct (Good2_run_ops terms TO TW ops [] empty_egraph [] [] hs s G0 R) as [G _].
+    destruct (Good2_run_ops terms TO TW ops [] empty_egraph [] [] hs s (Good2_empty []) R) as [G _].
     exact (Good_eq_sound _ _ _ _ i j a b ti tj G Ha Hb Hti Htj H).
   Qed.
+
+  (* insertion-only histories: equal handles belong to alpha-equivalent terms *)
+  Theorem equality_sound_insertion_only_x : forall terms ops hs s i j a b ti tj, Forall rt_ok terms -> Forall rt_wf terms ->
+    adds_only ops -> run_ops terms ops [] empty_egraph = Ok (hs, s) ->
+    nth_opt hs i = Some a -> nth_opt hs j = Some b ->
+    nth_opt (handle_cterms terms ops) i = Some ti -> nth_opt (handle_cterms terms ops) j = Some tj ->
+    eg_eq s a b = Ok true -> ti = tj.
+  Proof.
+    intros terms ops hs s i j a b ti tj TO TW AO R Ha Hb Hti Htj H.
+    destruct (Good2_run_adds terms TO TW ops [] empty_egraph [] [] hs s AO (Good2_empty []) R) as [[G _] _].
+    apply (Deriv_nil_eq 0). exact (Good_eq_sound _ _ _ _ i j a b ti tj G Ha Hb Hti Htj H).
+  Qed.
 End Stages.
+
+(* ====================================================================== *)
+(* the final statements: exactly the four semantic hypotheses               *)
+(* ====================================================================== *)
+
+Section Final.
+  Hypothesis HSh_red : spec_HSh_red.
+  Hypothesis HC_sim : spec_HC_sim.
+  Hypothesis HD_sim : spec_HD_sim.
+  Hypothesis HS_readd : spec_HS_readd.
+
+  Theorem equality_sound : forall terms ops hs s i j a b ti tj, Forall rt_ok terms -> Forall rt_wf terms ->
+    run_ops terms ops [] empty_egraph = Ok (hs, s) ->
+    nth_opt hs i = Some a -> nth_opt hs j = Some b ->
+    nth_opt (handle_cterms terms ops) i = Some ti -> nth_opt (handle_cterms terms ops) j = Some tj ->
+    eg_eq s a b = Ok true -> Deriv (asserted terms ops) 0 ti tj.
+  Proof.
+    exact (equality_sound_x _ _ xinv_trivial (spec_HSh_red_weaken _ HSh_red) (spec_HC_sim_weaken _ HC_sim)
+             (spec_HD_sim_weaken _ HD_sim) (spec_HS_readd_weaken _ _ HS_readd)).
+  Qed.
+
+  Theorem equality_sound_insertion_only : forall terms ops hs s i j a b ti tj, Forall rt_ok terms -> Forall rt_wf terms ->
+    adds_only ops -> run_ops terms ops [] empty_egraph = Ok (hs, s) ->
+    nth_opt hs i = Some a -> nth_opt hs j = Some b ->
+    nth_opt (handle_cterms terms ops) i = Some ti -> nth_opt (handle_cterms terms ops) j = Some tj ->
+    eg_eq s a b = Ok true -> ti = tj.
+  Proof.
+    exact (equality_sound_insertion_only_x _ _ xinv_trivial (spec_HSh_red_weaken _ HSh_red) (spec_HC_sim_weaken _ HC_sim)
+             (spec_HD_sim_weaken _ HD_sim) (spec_HS_readd_weaken _ _ HS_readd)).
+  Qed.
+End Final.
 
 (* ====================================================================== *)
 (* summary                                                                 *)
 (* ======================================================================
    Files: SoundSyn.v (class terms under renaming, `clsT_transfer`, `sim_lift`, `handle_sim`, `nsound`),
    SoundNode.v (`NodeT_equiv`, node congruences, `pre_shape_back`, `nsound_lookup_hit`, `nsound_sim`),
-   NodePass.v (`kids_exist` is a run invariant), SoundBase.v, SoundAddNew.v (new class),
+   NodePass.v (`kids_exist` is a run invariant), SoundUnion.v (the union core, `mod4_ok` is a run
+   invariant), SoundStruct.v (`stored2` is a run invariant; stored2 /\ mod4_ok -> stored_ok),
+   SoundBase.v, SoundAddNew.v (new class), SoundVals.v (slot names of the returned invocation),
    SoundAddExpr.v (canon / NodeT bridge, eg_add, add_expr), SoundPending.v (handle_pending), this file.
 
-   PROVED here, inside Section Stages (i.e. from the hypotheses listed below):
-   - Sound_handle_pending, Sound_rebuild (a): rebuild keeps `Sound E` (given inv3, syn_wf).
-   - Sound_add_internal, Sound_add_expr_all (b): insertion keeps Sound, syn_wf and the structural run
-     invariants RI = stored_ok /\ kids_exist, and returns a handle with handle_ok E s' a (canon0 t),
-     for rt_ok, rt_wf terms.  (`H_add` of SoundFacts.v is FALSE as stated there: for a term with
-     fewer children than applied-id positions `set_apps` keeps the placeholder invocation while
-     `canon` produces the dummy child; hence the premise rt_wf.)
-   - Sound_eg_union (c): eg_union of two handles keeps Sound for E ++ [(tl, tr)]
-     (`handle_sim` of SoundSyn.v gives l ~~ r from the two handle_ok facts and D_ax via Deriv_inst).
-   - Good2_run_ops, equality_sound (d): the end-to-end statement; the run invariant is
-     Good /\ syn_wf /\ stored_ok /\ kids_exist /\ ctr mod 4 = 1 (so `equality_sound_conditional`
-     of SoundFacts.v is re-proved with the larger invariant instead of being instantiated).
+   DISCHARGED (were Section hypotheses of the previous version):
+   - H_ui          = SoundBase.ui_spec_sound_closed (SoundUnion.sound_union_internal_closed); the
+                     interface `ui_spec_sound` now carries the premise mod4_ok of the pre-state, and
+                     mod4_ok is threaded through handle_pending / rebuild / eg_union / add_internal
+                     (preserved by every step: the p4 lemmas of SoundUnion.v, m4_* of SoundBase.v,
+                     m4_singleton_pre of SoundAddNew.v for the state before the rebuild of an insertion);
+   - H_shrink      = H_shrink_closed above (Sound_shrink_slots_closed + redund_of_sim: from ~~ from|cap
+                     gives the redundancy of the slots of `from` mapped outside cap);
+   - HSO_add_internal, HSO_eg_union: the run invariant is now RI0 = stored2 /\ kids_exist /\ mod4_ok
+                     (RI0_add_internal, RI0_eg_union; `stored_ok_of` gives stored_ok where it is used);
+   - HN_vals       = SoundVals.add_internal_new_vals (strengthened: a fresh value is below the new counter);
+   - HN_nsound     = SoundAddNew.nsound_add_internal_new; its two extra premises (child maps of the
+                     pre-shape are wf: SoundAddExpr.pre_shape_kids_wf; public slots of kind 4u+1 are
+                     below the counter) come from the handle-value invariant `hvb` threaded through
+                     SoundAddExpr.Sound_add_expr_k (values of the map of a handle that are 1 mod 4 are
+                     below the counter).
 
-   HYPOTHESES of Section Stages (everything else is closed under the global context):
-   - H_ui            the union core (stage 3), as specified in the task;
-   - H_shrink        (SoundPending.spec_H_shrink) the interface of shrink_slots, which is part of
-                     the union core but is called directly by handle_shrink_in_upwards_merge;
-   - HSh_red, HD_sim (spec_HSh_red, spec_HD_sim) the arguments of the shrink / of the union issued
-                     by handle_shrink_in_upwards_merge / determine_self_symmetries are related;
-                     SoundPending.pc_nsound is the common core, the rest is not proved;
-   - HC_sim          (spec_HC_sim) the same for handle_congruence.  NOT provable from
-                     inv3 /\ Sound: pc_congruence composes the bijections of two separately
-                     computed weak shapes without checking that the shapes are equal; a "key
-                     invariant" relating a stored entry (sh, (bij, src)) to the syntactic node of
-                     src is needed (see the analysis in SoundPending.v);
-   - HS_readd        (spec_HS_readd) the node re-added by handle_pending denotes its class;
-                     SoundPending.HS_readd_reduced reduces it to the renaming step `link_rename`
-                     plus the run invariant "children of stored nodes are covered";
-   - HSO_add_internal, HSO_eg_union   the structural invariant stored_ok (SoundNode.v) is kept;
-   - HN_vals         structural: values of the map returned by the lookup-miss branch;
-   - HN_nsound       the handle of a new class denotes the node; proved in
-                     SoundAddNew.nsound_add_internal_new under two more premises (child maps wf,
-                     public slots of kind 4u+1 are below the counter) that the caller does not
-                     supply yet. *)
+   Section Stages is parametric in two further structural run invariants SC, KC (abstract; what the
+   development needs of them is the record `xinv_ok`; `xinv_trivial` is the instance SC = KC = True)
+   so that proofs of the four semantic facts may use them: SC is threaded to every state inside
+   handle_pending (via ext), KC to the state where handle_pending starts; both to the state right
+   before the rebuild of an insertion (`new_walk` of SoundAddNew.v, field xi_new).
 
+   PROVED inside Section Stages from `xinv_ok SC KC` and the four hypotheses HSh_red, HC_sim, HD_sim,
+   HS_readd in their weakened form `spec_*_x` (with mod4_ok, SC (, KC) of the states as extra premises):
+   - Sound_handle_pending, Sound_rebuild (a): rebuild keeps `Sound E` (given inv3, syn_wf, mod4_ok).
+   - Sound_add_internal, Sound_add_expr_all (b): insertion keeps Sound, syn_wf and RI, and returns a
+     handle with handle_ok E s' a (canon0 t), for rt_ok, rt_wf terms.
+   - Sound_eg_union (c): eg_union of two handles keeps Sound for E ++ [(tl, tr)].
+   - Good2_run_ops, Good2_run_adds, equality_sound_x, equality_sound_insertion_only_x (d); the run
+     invariant is Good /\ syn_wf /\ RI /\ ctr mod 4 = 1 with RI = RI0 /\ SC /\ KC.
+
+   FINAL (Section Final): equality_sound, equality_sound_insertion_only, from exactly
+     HSh_red : spec_HSh_red, HC_sim : spec_HC_sim, HD_sim : spec_HD_sim, HS_readd : spec_HS_readd
+   (statements in SoundPending.v; `spec_*_weaken` gives the `_x` forms; instance xinv_trivial).
+   Everything else is closed under the global context.
+
+   The insertion-only corollary is NOT closed: the rebuild inside mk_singleton_class runs
+   handle_pending on the new node, which re-adds it (HS_readd: the re-added entry denotes its class)
+   and calls determine_self_symmetries (HD_sim, for the trivial variant).  HC_sim and HSh_red are not
+   exercised semantically in such histories (no lookup hit after the removal, no shrink: all groups
+   are trivial and the union-find is the identity), but showing that needs a flatness invariant of
+   insertion-only states that is not developed here. *)
+
+Print Assumptions H_shrink_closed.
 Print Assumptions Sound_rebuild.
 Print Assumptions Sound_eg_union.
 Print Assumptions Sound_add_internal.
 Print Assumptions Sound_add_expr_all.
+Print Assumptions equality_sound_x.
+Check equality_sound_x.
 Print Assumptions equality_sound.
+Print Assumptions equality_sound_insertion_only.
+Check equality_sound.
+Check equality_sound_insertion_only.
